@@ -520,12 +520,12 @@ theorem code_case (ver : List Nat) (fs : List (String × V)) (hshape : codeShape
     rw [run_bind, i32_app fl l1 l2]; simp only []
     rw [run_bind, obj_app ver f2 hA c pc (by omega) d false _ r s (by omega)]; simp only []
     rw [run_bind, obj_app ver f2 hA cs pcs (by omega) d false _ r s (by omega)]; simp only []
-    rw [run_bind, obj_app ver f2 hA ns pns (by omega) d false _ r s (by omega)]; simp only []
+    rw [run_bind, obj_app ver f2 hA ns pns (by omega) d true _ r s (by omega)]; simp only []
     rw [run_bind, obj_app ver f2 hA vn pvn (by omega) d true _ r s (by omega)]; simp only []
-    rw [run_bind, obj_app ver f2 hA fv pfv (by omega) d false _ r s (by omega)]; simp only []
-    rw [run_bind, obj_app ver f2 hA cv pcv (by omega) d false _ r s (by omega)]; simp only []
-    rw [run_bind, obj_app ver f2 hA fn pfn (by omega) d false _ r s (by omega)]; simp only []
-    rw [run_bind, obj_app ver f2 hA nm pnm (by omega) d false _ r s (by omega)]; simp only []
+    rw [run_bind, obj_app ver f2 hA fv pfv (by omega) d true _ r s (by omega)]; simp only []
+    rw [run_bind, obj_app ver f2 hA cv pcv (by omega) d true _ r s (by omega)]; simp only []
+    rw [run_bind, obj_app ver f2 hA fn pfn (by omega) d true _ r s (by omega)]; simp only []
+    rw [run_bind, obj_app ver f2 hA nm pnm (by omega) d true _ r s (by omega)]; simp only []
     rw [run_bind, i32_app first r1 r2]; simp only []
     rw [run_bind, obj_app ver f2 hA lt plt (by omega) d false _ r s (by omega)]; simp only []
     rfl
@@ -543,12 +543,12 @@ theorem code_case (ver : List Nat) (fs : List (String × V)) (hshape : codeShape
     rw [run_bind, i32_app fl l1 l2]; simp only []
     rw [run_bind, obj_app ver f2 hA c pc (by omega) d false _ r s (by omega)]; simp only []
     rw [run_bind, obj_app ver f2 hA cs pcs (by omega) d false _ r s (by omega)]; simp only []
-    rw [run_bind, obj_app ver f2 hA ns pns (by omega) d false _ r s (by omega)]; simp only []
+    rw [run_bind, obj_app ver f2 hA ns pns (by omega) d true _ r s (by omega)]; simp only []
     rw [run_bind, obj_app ver f2 hA vn pvn (by omega) d true _ r s (by omega)]; simp only []
-    rw [run_bind, obj_app ver f2 hA fv pfv (by omega) d false _ r s (by omega)]; simp only []
-    rw [run_bind, obj_app ver f2 hA cv pcv (by omega) d false _ r s (by omega)]; simp only []
-    rw [run_bind, obj_app ver f2 hA fn pfn (by omega) d false _ r s (by omega)]; simp only []
-    rw [run_bind, obj_app ver f2 hA nm pnm (by omega) d false _ r s (by omega)]; simp only []
+    rw [run_bind, obj_app ver f2 hA fv pfv (by omega) d true _ r s (by omega)]; simp only []
+    rw [run_bind, obj_app ver f2 hA cv pcv (by omega) d true _ r s (by omega)]; simp only []
+    rw [run_bind, obj_app ver f2 hA fn pfn (by omega) d true _ r s (by omega)]; simp only []
+    rw [run_bind, obj_app ver f2 hA nm pnm (by omega) d true _ r s (by omega)]; simp only []
     rw [run_bind, i32_app first r1 r2]; simp only []
     rw [run_bind, obj_app ver f2 hA lt plt (by omega) d false _ r s (by omega)]; simp only []
     rfl
